@@ -54,6 +54,17 @@ KINDS = {
     "three_workers_two_helpers": "fn helper(x) { return x; } fn worker(c, v) { launch helper(v); launch helper(v); c <- [v]; } for k in 3.times() { launch worker(kc, k); } for k in 3.times() { let g = <- kc; }",
     "sync_worker_helper": "fn helper() { let h = [1]; } fn worker(c, v) { launch helper(); c <- 's' + v.str(); } launch worker(ks, i); let got = <- ks;",
     "receiver_worker": "fn helper() { let h = [1]; } fn taker(c, d) { launch helper(); let v = <- c; d <- [v]; } launch taker(kc, ks); kc <- [i]; let got = <- ks;",
+    # an error that comes out of an iterator adaptor driven by a for loop (no native call frame around it): nothing may stay rooted
+    "for_zip_err": "try { for p in [i, 2].iter().zip([1, 2].iter().map(|x| { raise Error('z' + i.str()); })) { } } catch e { }",
+    "for_zip_err_second": "try { for p in [[i], 2].iter().zip([1, 2].iter().map(|x| { if x == 2 { raise Error('z'); } return [x]; })) { } } catch e { }",
+    "for_map_err": "try { for p in [[i], 2].iter().map(|x| { raise Error('m' + i.str()); }) { } } catch e { }",
+    "for_filter_err": "try { for p in [[i], 2].iter().filter(|x| { raise Error('f'); }) { } } catch e { }",
+    "for_chain_err": "try { for p in [[i]].iter().chain([1].iter().map(|x| { raise Error('c'); })) { } } catch e { }",
+    "for_take_err": "try { for p in [[i], 2].iter().map(|x| { raise Error('t'); }).take(1) { } } catch e { }",
+    "for_skip_err": "try { for p in [[i], 2, 3].iter().skip(1).map(|x| { raise Error('s'); }) { } } catch e { }",
+    "for_zip3_err": "try { for p in [[i]].iter().zip([1].iter(), [1].iter().map(|x| { raise Error('z3'); })) { } } catch e { }",
+    "for_nested_zip_err": "try { for p in [[i]].iter().zip([1].iter().zip([1].iter().map(|x| { raise Error('zz'); }))) { } } catch e { }",
+    "next_zip_err": "let it = [[i], 2].iter().zip([1, 2].iter().map(|x| { raise Error('z'); })); try { it.next(); } catch e { }",
     "regexp": "let r = RegExp('a' + i.str()); r.test('a1'); r.captures('a' + i.str());",
 }
 PRE = "import std.regexp:{RegExp};\nclass Holder { init() { self.x = nil; self.y = nil; } get() { return self.x; } }\nlet keep = [Holder(), 'live' + 'set', {1: [2]}, (3, 4), || 5];\nlet kc = chan(1); let ks = chan();\n"
